@@ -201,15 +201,27 @@ pub fn sym_raw_connector(nr: usize, nl: usize) -> RawConnector {
         co.push(c);
     }
     let sc = Scorer::verif_from_parts(b, ch, co);
+    // concrete feature rows (symbolic rows are the subject of the C07 harnesses); the costs the
+    // scorer lists for them are symbolic
     let mut rows_r = Vec::with_capacity(nr);
     let mut rows_l = Vec::with_capacity(nl);
-    for _ in 0..nr {
-        rows_r.push(sym_feature_block(3));
+    for i in 0..nr {
+        rows_r.push(concrete_feature_block(i as u32, 3));
     }
-    for _ in 0..nl {
-        rows_l.push(sym_feature_block(3));
+    for i in 0..nl {
+        rows_l.push(concrete_feature_block(i as u32 + 1, 3));
     }
     RawConnector::new(rows_r, rows_l, 1, sc)
+}
+
+pub fn concrete_feature_block(seed: u32, t: usize) -> U31x8 {
+    let mut a = [INVALID_FEATURE_ID; 8];
+    for i in 0..8 {
+        if i < t {
+            a[i] = U31::new((seed + i as u32) % 3).unwrap();
+        }
+    }
+    U31x8::verif_from_array(a)
 }
 
 #[cfg(kani)]
